@@ -139,7 +139,7 @@ def main():
             Kf = [A.toarray() for A in fs.Get_K_C_M_F()]
             ident = dict(history=h, sim=kind, elemType=et, ops=list(ops_txt))
             res.case((h, k, "matrices"))
-            bad = [n for n, a, b in zip("KCMF", Ks, Kf) if a.shape != b.shape or np.abs(a - b).max() > 1e-9 * (1 + np.abs(b).max())]
+            bad = [n for n, a, b in zip("KCMF", Ks, Kf) if a.shape != b.shape or not (np.abs(a - b).max() <= 1e-9 * (1 + np.abs(b).max()))]
             if bad:
                 res.fail(f"stale matrices sim={kind}", f"after the history, {bad} differ from those of a simulation built in the final configuration", ident)
                 return
@@ -152,13 +152,13 @@ def main():
                     return
                 note("read", "Solve")
                 res.case((h, k, "solution"))
-                if u.shape != uf.shape or np.abs(u - uf).max() > 1e-8 * (1 + np.abs(uf).max()):
+                if u.shape != uf.shape or not (np.abs(u - uf).max() <= 1e-8 * (1 + np.abs(uf).max())):
                     res.fail(f"stale solution sim={kind}", f"solution differs from the fresh simulation's by {np.abs(u - uf).max() if u.shape == uf.shape else 'shape'}", ident)
                 if kind == "elastic":
                     r1 = np.asarray(simu.Result("Svm", nodeValues=False))
                     r2 = np.asarray(fs.Result("Svm", nodeValues=False))
                     res.case((h, k, "result"))
-                    if r1.shape != r2.shape or np.abs(r1 - r2).max() > 1e-7 * (1 + np.abs(r2).max()):
+                    if r1.shape != r2.shape or not (np.abs(r1 - r2).max() <= 1e-7 * (1 + np.abs(r2).max())):
                         res.fail("stale result sim=elastic", "Result('Svm') differs from the fresh simulation's", ident)
 
         for k in range(nops):
@@ -245,7 +245,7 @@ def main():
         fs, _ = fresh(cfg)
         Kf = [A.toarray() for A in fs.Get_K_C_M_F()]
         res.case(("single", ident["sim"], ident["elemType"], tag))
-        bad = [n for n, a, b in zip("KCMF", Ks, Kf) if a.shape != b.shape or np.abs(a - b).max() > 1e-9 * (1e-300 + np.abs(b).max())]
+        bad = [n for n, a, b in zip("KCMF", Ks, Kf) if a.shape != b.shape or not (np.abs(a - b).max() <= 1e-9 * (1e-300 + np.abs(b).max()))]
         if bad:
             res.fail(f"stale after {tag} sim={ident['sim']}", f"[read, {tag}, read]: {bad} differ from those of a simulation built in the final configuration", dict(ident, modification=tag))
 
@@ -324,6 +324,130 @@ def main():
                     cfg.meshes[1]["transforms"].append(t)
                 compare(simu, cfg, dict(sim=kind, elemType=et), mod)
 
+    # ---------------- a saved simulation: restore an iteration living on an earlier mesh (read back from the disk), then move that mesh ----------------
+    import shutil
+    import tempfile
+    for kind_ in ("elastic", "thermal"):
+        tmpd = tempfile.mkdtemp(prefix="c14save_")
+        ident = dict(sim=kind_, history="solve on mesh 1, simu.mesh = mesh 2, solve, Save(folder), Set_Iter(0), read, mesh.Rotate(30 deg), read")
+        res.case(("saved-mesh-moved", kind_))
+        res.count("saved-mesh-moved")
+        try:
+            mk_law = (lambda: Models.Elastic.Isotropic(2, E=10.0, v=0.25, planeStress=True, thickness=0.5)) if kind_ == "elastic" else (lambda: Models.Thermal(2.0, 1.0, thickness=0.5))
+            Sim_ = Simulations.Elastic if kind_ == "elastic" else Simulations.Thermal
+            m1_, m2_ = M.mesh_2d("TRI3", 2.0, 1.0, 0.5), M.mesh_2d("TRI3", 2.0, 1.0, 0.4)
+            sv_ = Sim_(m1_, mk_law())
+            unk_ = sv_.Get_unknowns()
+            for mm_, val_ in ((m1_, 0.1), (m2_, 0.2)):
+                if mm_ is not m1_:
+                    sv_.mesh = mm_
+                sv_.Bc_Init()
+                sv_.add_dirichlet(mm_.Nodes_Conditions(lambda x, y, z: x == 0), [0.0] * len(unk_), unk_)
+                sv_.add_dirichlet(mm_.Nodes_Conditions(lambda x, y, z: x == 2.0), [val_], unk_[:1])
+                sv_.Solve()
+                sv_.Save_Iter()
+            sv_.Save(tmpd)
+            sv_.Set_Iter(0)
+            sv_.Get_K_C_M_F()
+            sv_.mesh.Rotate(30.0, (0.0, 0.0, 0.0), (0, 0, 1))
+            got_ = [A_.toarray() for A_ in sv_.Get_K_C_M_F()[:3]]
+            ref_ = [A_.toarray() for A_ in Sim_(sv_.mesh.copy(), mk_law()).Get_K_C_M_F()[:3]]
+            gap_ = max(np.abs(a_ - b_).max() / max(1e-300, np.abs(b_).max()) for a_, b_ in zip(got_, ref_) if b_.size and np.abs(b_).max() > 0)
+            if not (gap_ <= 1e-9):
+                res.fail(f"stale after moving a mesh read back from the saved history sim={kind_}",
+                         f"after Save, Set_Iter(0) (mesh 1 is read from the disk) and mesh.Rotate(30), the matrices differ from those of a new simulation on the moved mesh by {gap_:.3e} (relative)", ident)
+        except Exception as ex:  # noqa: BLE001
+            res.fail(f"saved-mesh scenario raises sim={kind_}", f"{type(ex).__name__}: {str(ex)[:160]}", ident)
+        finally:
+            shutil.rmtree(tmpd, ignore_errors=True)
+
+    # ---------------- units and position: [read + solve, one motion of the mesh, read + solve] on meshes given in other units ----------------
+    # The same plate described in nanometres, in tenths of millimetres, in hundreds of kilometres, or geo-referenced (far from the
+    # origin); the motions are O(1) relative to the plate (rotation, reflection, stretch, shear) or small relative to it (a rotation of
+    # 0.01 degree, a smooth nudge of 1e-4 of its size). The reference is a mesh object built directly from the final coordinates
+    # (no motion, no earlier read), with a new model and a new simulation.
+    from EasyFEA import Mesh as _Mesh
+    from EasyFEA.FEM._group_elem import GroupElemFactory as _GEF
+
+    def mesh_from(base, coord):
+        return _Mesh({g.elemType: _GEF.Create(g.elemType, np.array(g.connect), np.array(coord, dtype=float)) for g in base.dict_groupElem.values()})
+
+    placements = [("unit", 1.0, (0.0, 0.0)), ("scale 1e-9", 1e-9, (0.0, 0.0)), ("scale 1e-4", 1e-4, (0.0, 0.0)), ("scale 1e5", 1e5, (0.0, 0.0)),
+                  ("offset (650000, 4800000)", 1.0, (650000.0, 4800000.0)), ("scale 1e-3, offset (1000, -2000)", 1e-3, (1000.0, -2000.0))]
+    motions = ["rotate 10 deg about the centre", "rotate 0.01 deg about the centre", "symmetry through the centre", "coord: stretch x by 1.3 about the centre",
+               "coord: shear 0.25", "coord: smooth nudge of 1e-4 of the size"]
+
+    def do_motion(mesh, mv, L):
+        c = np.array(mesh.center, dtype=float)
+        if mv.startswith("rotate"):
+            mesh.Rotate(float(mv.split()[1]), tuple(c), (0, 0, 1))
+        elif mv.startswith("symmetry"):
+            mesh.Symmetry(tuple(c), (0.6, 0.8, 0))
+        else:
+            X = np.array(mesh.coord, dtype=float)
+            if "stretch" in mv:
+                X[:, 0] = c[0] + 1.3 * (X[:, 0] - c[0])
+            elif "shear" in mv:
+                X[:, 0] = X[:, 0] + 0.25 * (X[:, 1] - c[1])
+            else:
+                X[:, 1] = X[:, 1] + 1e-4 * L * np.sin(3.0 * (X[:, 0] - c[0]) / L)
+            mesh.coord = X
+
+    def up_solve(simu, kind, lft, rgt, L):
+        simu.Solver_Set_Elliptic_Algorithm()
+        simu.Bc_Init()
+        unk = simu.Get_unknowns()
+        simu.add_dirichlet(lft, [0.0] * len(unk), unk)
+        simu.add_dirichlet(rgt, [0.125 * L], unk[-1:])
+        mats = [A.toarray() for A in simu.Get_K_C_M_F()]
+        out = dict(zip("KCMF", mats))
+        out["solution"] = np.asarray(simu.Solve()).copy()
+        if kind == "elastic":
+            out["Svm"] = np.asarray(simu.Result("Svm", nodeValues=False)).copy()
+        return out
+
+    for et in (["TRI3", "QUAD4"] if args.tier == "quick" else ["TRI3", "QUAD4", "TRI6", "QUAD8"]):
+        base = gen_mesh(et, 0.5)
+        X0 = np.array(base.coord, dtype=float)
+        lft = np.where(X0[:, 0] == 0.0)[0]
+        rgt = np.where(X0[:, 0] == 2.0)[0]
+        for kind in ("elastic", "thermal"):
+            for pname_, s_, off_ in placements:
+                Xp = X0 * s_
+                Xp[:, 0] += off_[0]
+                Xp[:, 1] += off_[1]
+                for mv in motions:
+                    ident = dict(sim=kind, elemType=et, mesh=f"rectangle 2 x 1 (h = 0.5), coordinates * {s_} + {off_}", placement=pname_, motion=mv,
+                                 scenario="mesh built from these coordinates; simulation; Get_K_C_M_F + Solve; motion; Get_K_C_M_F + Solve, against a mesh, model and simulation built from the final coordinates")
+                    try:
+                        cfg = Cfg(kind, et)
+                        mesh = mesh_from(base, Xp)
+                        simu = make_sim(cfg, mesh, make_model(cfg))
+                        simu.rho = cfg.rho
+                        up_solve(simu, kind, lft, rgt, s_)
+                        do_motion(mesh, mv, s_)
+                        got = up_solve(simu, kind, lft, rgt, s_)
+                        Xf = np.array(mesh.coord, dtype=float)
+                        res.case(("units-position", kind, et, pname_, mv))
+                        res.count("units-position:" + kind)
+                        if not (np.abs(Xf - Xp).max() > 0):
+                            res.fail(f"mesh motion does nothing sim={kind}", "the coordinates of the mesh are unchanged after the motion", ident)
+                            continue
+                        fsim = make_sim(cfg, mesh_from(base, Xf), make_model(cfg))
+                        fsim.rho = cfg.rho
+                        want = up_solve(fsim, kind, lft, rgt, s_)
+                        bad = []
+                        for n in got:
+                            a, b = got[n], want[n]
+                            tol = 1e-9 if n in "KCMF" else 1e-7
+                            if a.shape != b.shape or not (np.abs(a - b).max() <= tol * (1e-300 + np.abs(b).max())):
+                                bad.append(n if a.shape != b.shape else f"{n} (rel. {np.abs(a - b).max() / (1e-300 + np.abs(b).max()):.2e})")
+                        if bad:
+                            res.fail(f"stale after a mesh motion (units / position of the mesh) sim={kind}",
+                                     f"mesh in '{pname_}', [read, solve, {mv}, read, solve]: {bad} differ from those of a simulation built on a mesh created from the final coordinates", ident)
+                    except Exception as ex:  # noqa: BLE001
+                        res.fail(f"units-position scenario raises sim={kind}", f"{type(ex).__name__}: {str(ex)[:150]}", ident)
+
     # ---------------- going back to an earlier mesh through Set_Iter, then moving that mesh ----------------
     for kind in ("elastic", "thermal"):
         for et in (["TRI3", "QUAD4"] if args.tier == "quick" else ["TRI3", "QUAD4", "TRI6"]):
@@ -352,7 +476,7 @@ def main():
                     Ks = [A.toarray() for A in simu.Get_K_C_M_F()]
                     fs, _ = fresh(cfg)
                     Kf = [A.toarray() for A in fs.Get_K_C_M_F()]
-                    bad = [n for n, a, b in zip("KCMF", Ks, Kf) if a.shape != b.shape or np.abs(a - b).max() > 1e-9 * (1e-300 + np.abs(b).max())]
+                    bad = [n for n, a, b in zip("KCMF", Ks, Kf) if a.shape != b.shape or not (np.abs(a - b).max() <= 1e-9 * (1e-300 + np.abs(b).max()))]
                     if bad:
                         res.fail(f"stale after moving a mesh restored by Set_Iter sim={kind}", f"{bad} differ from those of a simulation built on the moved mesh (needUpdate = {bool(simu.needUpdate)})", ident)
                 except Exception as ex:  # noqa: BLE001
@@ -390,7 +514,7 @@ def main():
                 Ks = [A.toarray() for A in simu.Get_K_C_M_F()]
                 fs, _ = fresh(cfg)
                 Kf = [A.toarray() for A in fs.Get_K_C_M_F()]
-                bad = [n for n, a, b in zip("KCMF", Ks, Kf) if a.shape != b.shape or np.abs(a - b).max() > 1e-9 * (1e-300 + np.abs(b).max())]
+                bad = [n for n, a, b in zip("KCMF", Ks, Kf) if a.shape != b.shape or not (np.abs(a - b).max() <= 1e-9 * (1e-300 + np.abs(b).max()))]
                 if simu.mesh is not mesh2 or bad:
                     res.fail(f"wrong mesh after restoring an iteration saved on a mesh assigned after going back sim={kind}",
                              f"Set_Iter(2) {'did not reattach the third mesh' if simu.mesh is not mesh2 else ''}; {bad} differ from those of a simulation built on that mesh", ident)
@@ -402,12 +526,12 @@ def main():
     from EasyFEA.Geoms import Line as _Line, Point as _Pt, Domain as _Dom
     for bdim in (2, 3):
         for timo in (False, True):
-            def bbuild(E=1000.0, v=0.25, yAxis=(0, 1, 0)):
-                sect = _Mesher().Mesh_2D(_Dom(_Pt(), _Pt(0.5, 0.25)))
+            def bbuild(E=1000.0, v=0.25, yAxis=(0, 1, 0), size=(0.5, 0.25)):
+                sect = _Mesher().Mesh_2D(_Dom(_Pt(), _Pt(*size)))
                 beam = Models.Beam.Isotropic(bdim, _Line(_Pt(0.5, -0.25, 0.0), _Pt(2.5, 1.0, 0.75 if bdim == 3 else 0.0), 1.0), sect, E, v, yAxis)
                 meshb = _Mesher().Mesh_Beams([beam], elemType=_ET.SEG3)
                 return Simulations.Beam(meshb, Models.Beam.BeamStructure([beam]), useTimoshenko=timo), beam
-            for mod in (("E", "v", "yAxis") if bdim == 3 else ("E", "v")):
+            for mod in (("E", "v", "section", "yAxis") if bdim == 3 else ("E", "v", "section")):
                 ident = dict(sim="Beam", dim=bdim, timoshenko=timo, modification=mod)
                 try:
                     sb, beam = bbuild()
@@ -418,13 +542,17 @@ def main():
                     elif mod == "v":
                         beam.v = 0.35
                         ref = bbuild(v=0.35)[0]
+                    elif mod == "section":
+                        # a thin, deep section instead of the stocky one: area, inertias and shear correction factors all change
+                        beam.section = _Mesher().Mesh_2D(_Dom(_Pt(), _Pt(0.0625, 1.0)))
+                        ref = bbuild(size=(0.0625, 1.0))[0]
                     else:
                         beam.yAxis = (0.0, 0.6, 0.8)
                         ref = bbuild(yAxis=(0.0, 0.6, 0.8))[0]
                     res.case(("single", "Beam", bdim, timo, mod))
                     Ks = [A.toarray() for A in sb.Get_K_C_M_F()]
                     Kf = [A.toarray() for A in ref.Get_K_C_M_F()]
-                    bad = [n for n, a, b in zip("KCMF", Ks, Kf) if a.shape != b.shape or np.abs(a - b).max() > 1e-9 * (1e-300 + np.abs(b).max())]
+                    bad = [n for n, a, b in zip("KCMF", Ks, Kf) if a.shape != b.shape or not (np.abs(a - b).max() <= 1e-9 * (1e-300 + np.abs(b).max()))]
                     if bad:
                         res.fail(f"stale after {mod} sim=Beam", f"[read, beam.{mod} changed, read]: {bad} differ from those of a beam model built in the final configuration", ident)
                 except Exception as ex:  # noqa: BLE001
@@ -461,7 +589,7 @@ def main():
             for pt in ("damage", "elastic"):
                 got = [A.toarray() for A in sa.Get_K_C_M_F(pt)]
                 want = [A.toarray() for A in sr_.Get_K_C_M_F(pt)]
-                bad = [n for n, a, b in zip("KCMF", got, want) if a.shape != b.shape or np.abs(a - b).max() > 1e-9 * (1e-300 + np.abs(b).max())]
+                bad = [n for n, a, b in zip("KCMF", got, want) if a.shape != b.shape or not (np.abs(a - b).max() <= 1e-9 * (1e-300 + np.abs(b).max()))]
                 if bad:
                     res.fail(f"stale phase-field {pt} system after a change of {pname}", f"after phaseFieldModel.{pname} was changed on a loaded state, {bad} of the {pt} problem differ from a fresh simulation in the same state", dict(sim="PhaseField", parameter=pname))
     except Exception as ex:  # noqa: BLE001
@@ -495,7 +623,7 @@ def main():
             res.case(("phasefield", "elastic-law", pname))
             for pt in ("damage", "elastic"):
                 want = [A.toarray() for A in sf2.Get_K_C_M_F(pt)]
-                bad = [n for n, a, b in zip("KCMF", got[pt], want) if a.shape != b.shape or np.abs(a - b).max() > 1e-9 * (1e-300 + np.abs(b).max())]
+                bad = [n for n, a, b in zip("KCMF", got[pt], want) if a.shape != b.shape or not (np.abs(a - b).max() <= 1e-9 * (1e-300 + np.abs(b).max()))]
                 if bad:
                     res.fail(f"stale phase-field {pt} system after a change of the elastic law", f"after material.{pname} = {pval} on a loaded state, {bad} of the {pt} problem differ from a fresh simulation in the same state",
                              dict(sim="PhaseField", parameter=pname, value=pval, max_damage=float(dq.max())))
@@ -529,7 +657,7 @@ def main():
         sf._Set_solutions("damage", states[1][1].copy())
         Kf = sf.Get_K_C_M_F("elastic")[0].toarray()
         res.case(("phasefield", "set_iter"))
-        if np.abs(Ku - Kf).max() > 1e-8 * np.abs(Kf).max():
+        if not (np.abs(Ku - Kf).max() <= 1e-8 * np.abs(Kf).max()):
             res.fail("stale phase-field displacement system after Set_Iter", f"after Set_Iter(1) the elastic matrix differs from a fresh simulation in that state by {np.abs(Ku - Kf).max() / np.abs(Kf).max():.3e} (relative)",
                      dict(sim="PhaseField", steps=[0.0, 0.02, 0.05, 0.08], restored=1, max_damage=[float(d.max()) for _, d in states]))
     except Exception as ex:  # noqa: BLE001
@@ -566,7 +694,7 @@ def main():
                 _, bf_ = ibuild(solver_=solver_, **kwf)
                 s3_ = isolve(bf_, 0.05)                      # behaviour built in the final configuration
                 res.case(("inelastic", "shared-behaviour", solver_, pname))
-                bad = [n for n in ("displacement", "Svm") if np.abs(np.asarray(s2_.Result(n)) - np.asarray(s3_.Result(n))).max() > 1e-7 * (1 + np.abs(np.asarray(s3_.Result(n))).max())]
+                bad = [n for n in ("displacement", "Svm") if not (np.abs(np.asarray(s2_.Result(n)) - np.asarray(s3_.Result(n))).max() <= 1e-7 * (1 + np.abs(np.asarray(s3_.Result(n))).max()))]
                 if bad:
                     res.fail(f"stale behaviour after a change of the elastic law sim=InElastic solver={solver_}",
                              f"elastic.{pname} changed after a first solve: a simulation using the same Behavior gives {bad} that differ from those of a Behavior built with the final parameters "
@@ -583,7 +711,7 @@ def main():
                 s5_.Need_Update()
                 Kwant = s5_.Get_K_C_M_F()[0].toarray()
                 res.case(("inelastic", "tangent-after-change", solver_, pname))
-                if np.abs(Kgot - Kwant).max() > 1e-9 * np.abs(Kwant).max():
+                if not (np.abs(Kgot - Kwant).max() <= 1e-9 * np.abs(Kwant).max()):
                     res.fail(f"stale tangent after a change of the elastic law sim=InElastic",
                              f"[solve in the elastic range, read, elastic.{pname} changed, read]: K differs from the one of a simulation built with the final parameters in the same state "
                              f"(relative gap {np.abs(Kgot - Kwant).max() / np.abs(Kwant).max():.3e})", identi)
@@ -611,7 +739,7 @@ def main():
             sh2_ = hsolve(mk_(pval))
             res.case(("hyperelastic", "law-parameter", lawn))
             gap = np.abs(np.asarray(sh1_.displacement) - np.asarray(sh2_.displacement)).max()
-            if gap > 1e-6 * (1 + np.abs(np.asarray(sh2_.displacement)).max()):
+            if not (gap <= 1e-6 * (1 + np.abs(np.asarray(sh2_.displacement)).max())):
                 res.fail(f"stale after a change of the law sim=HyperElastic law={lawn}", f"[solve, {lawn}.{pname} = {pval}, solve]: the displacement differs from a fresh simulation with the final parameter by {gap:.3e}",
                          dict(sim="HyperElastic", law=lawn, parameter=pname, value=pval))
     except Exception as ex:  # noqa: BLE001
@@ -633,7 +761,7 @@ def main():
                 Kgot = s_.Get_K_C_M_F()[0].toarray()
                 Kwant = mksim(s_.mesh, ref_model).Get_K_C_M_F()[0].toarray()
                 res.case(("shared-model", kind_, k_))
-                if np.abs(Kgot - Kwant).max() > 1e-9 * np.abs(Kwant).max():
+                if not (np.abs(Kgot - Kwant).max() <= 1e-9 * np.abs(Kwant).max()):
                     res.fail(f"stale simulation sharing its model sim={kind_}", f"three simulations share one model; after model.{pname} = {pval}, simulation number {k_} (in construction order) still returns the former K "
                              f"(relative gap {np.abs(Kgot - Kwant).max() / np.abs(Kwant).max():.3e})", dict(sim=kind_, parameter=pname, simulation=k_))
     except Exception as ex:  # noqa: BLE001
@@ -694,7 +822,7 @@ def main():
                     got = W.read(simu, False)
                     simu.Need_Update()
                     forced = W.read(simu, False)
-                    bad = [f"{pt}:{n}" for pt in got for n, a, b in zip("KCMF", got[pt], forced[pt]) if a.shape != b.shape or np.abs(a - b).max() > 1e-9 * (1e-300 + np.abs(b).max())]
+                    bad = [f"{pt}:{n}" for pt in got for n, a, b in zip("KCMF", got[pt], forced[pt]) if a.shape != b.shape or not (np.abs(a - b).max() <= 1e-9 * (1e-300 + np.abs(b).max()))]
                     if bad:
                         res.fail(f"stale matrices: the simulation is not notified sim={cname} holder={role}",
                                  f"[read, {what}, read]: the flag stays down and {bad} differ from what the same simulation assembles once it is told to rebuild", dict(sim=cname, holder=path, operation=what))
